@@ -575,3 +575,367 @@ Section PartA.
     - intros L S. eapply mark_no_new; eassumption.
   Qed.
 End PartA.
+
+(* ------------------------------------------------------------------ writing one value through one location *)
+Lemma set_nth_nth n g l : forall m, nth_error (set_nth n g l) m =
+  if Nat.eqb n m then option_map g (nth_error l m) else nth_error l m.
+Proof.
+  revert n. induction l as [|x r IH]; intros n m.
+  - assert (E : set_nth n g [] = []) by (destruct n; reflexivity). rewrite E.
+    destruct m; cbn [nth_error option_map]; destruct (Nat.eqb n _); reflexivity.
+  - destruct n as [|n], m as [|m]; cbn [set_nth nth_error Nat.eqb option_map]; try reflexivity. apply IH.
+Qed.
+
+Lemma lookup_set_key k g kvs k' : lookup k' (set_key k g kvs) =
+  if bytes_eqb k k' then option_map g (lookup k' kvs) else lookup k' kvs.
+Proof.
+  unfold set_key. induction kvs as [|[k0 c] r IH]; [destruct (bytes_eqb k k'); reflexivity|].
+  cbn [map fst snd]. destruct (bytes_eqb k k0) eqn:E0; cbn [lookup fst snd].
+  - apply bytes_eqb_eq in E0. subst k0. destruct (bytes_eqb k' k) eqn:E1.
+    + apply bytes_eqb_eq in E1. subst k'. rewrite bytes_eqb_refl. reflexivity.
+    + exact IH.
+  - destruct (bytes_eqb k' k0) eqn:E1; [|exact IH].
+    apply bytes_eqb_eq in E1. subst k0. rewrite E0. reflexivity.
+Qed.
+
+Lemma set_nth_idem n g l : (forall v, g (g v) = g v) -> set_nth n g (set_nth n g l) = set_nth n g l.
+Proof.
+  intro Hg. revert n. induction l as [|x r IH]; intro n; [destruct n; reflexivity|].
+  destruct n; cbn [set_nth]; [rewrite Hg | rewrite IH]; reflexivity.
+Qed.
+
+Lemma set_key_idem k g kvs : (forall v, g (g v) = g v) -> set_key k g (set_key k g kvs) = set_key k g kvs.
+Proof.
+  intro Hg. unfold set_key. rewrite map_map. apply map_ext. intros [k0 c]. cbn [fst snd].
+  destruct (bytes_eqb k k0) eqn:E; cbn [fst snd]; rewrite E; [rewrite Hg|]; reflexivity.
+Qed.
+
+Lemma set_at_idem x : forall L v, set_at x L (set_at x L v) = set_at x L v.
+Proof.
+  induction L as [|s L IH]; intro v; [reflexivity|].
+  destruct s, v; cbn [set_at]; try reflexivity.
+  - rewrite set_key_idem by exact IH. reflexivity.
+  - rewrite set_nth_idem by exact IH. reflexivity.
+Qed.
+
+Lemma fold_set_same x L1 : forall (ms : list (loc * jv)) v, (forall m, In m ms -> fst m = L1) -> ms <> [] ->
+  fold_left (fun acc m => set_at x (fst m) acc) ms v = set_at x L1 v.
+Proof.
+  induction ms as [|m ms IH]; intros v Hall Hne; [congruence|].
+  cbn [fold_left]. rewrite (Hall m (or_introl eq_refl)).
+  destruct ms as [|m' ms']; [reflexivity|].
+  rewrite IH; [apply set_at_idem | intros m0 H0; apply Hall; right; exact H0 | discriminate].
+Qed.
+
+Lemma loc_cases : forall A B : loc,
+  (exists R, B = A ++ R) \/ (exists s R, A = B ++ s :: R) \/ ~ comparable A B.
+Proof.
+  induction A as [|a A IH]; intro B.
+  - left. exists B. reflexivity.
+  - destruct B as [|b B].
+    + right. left. exists a, A. reflexivity.
+    + destruct (step_eqb a b) eqn:E.
+      * apply step_eqb_eq in E. subst b. destruct (IH B) as [(R & ->)|[(s & R & ->)|N]].
+        -- left. exists R. reflexivity.
+        -- right. left. exists s, R. reflexivity.
+        -- right. right. intros [[R E]|[R E]]; injection E as E; apply N; [left|right]; exists R; exact E.
+      * right. right. intros [[R E']|[R E']]; injection E' as E1 _; subst; rewrite step_eqb_refl in E; discriminate.
+Qed.
+
+Section PartB.
+  Variable parse : bytes -> option jv.
+  Variable render : jv -> bytes.
+  Variable b64d : bytes -> option bytes.
+  Variable b64e : bytes -> bytes.
+  Variable xml_redact : bytes -> bytes -> option bytes.
+  Notation sub := (sub parse b64d).
+  Notation decode := (decode parse b64d).
+
+  Lemma sub_set_at_same x : forall L v, hopfree L -> sub v L <> None -> sub (set_at x L v) L = Some x.
+  Proof.
+    induction L as [|s L IH]; intros v Hf Hs; [reflexivity|].
+    pose proof (Forall_inv Hf) as H0. pose proof (Forall_inv_tail Hf) as Hf'. cbn beta in H0.
+    cbn [RedactSpec.sub] in Hs. destruct s as [k|n|]; [| |congruence]; destruct v; try congruence; cbn [set_at RedactSpec.sub].
+    - rewrite lookup_set_key, bytes_eqb_refl. destruct (lookup k kvs) as [c|]; [|congruence]. cbn [option_map]. apply IH; assumption.
+    - rewrite set_nth_nth, Nat.eqb_refl. destruct (nth_error l n) as [c|]; [|congruence]. cbn [option_map]. apply IH; assumption.
+  Qed.
+
+  Lemma comparable_cons_inv s A B : comparable (s :: A) (s :: B) -> comparable A B.
+  Proof. intros [[R E]|[R E]]; injection E as E; [left|right]; exists R; exact E. Qed.
+
+  Lemma sub_set_at_other x : forall L1 L v, ~ comparable L1 L -> sub (set_at x L1 v) L = sub v L.
+  Proof.
+    induction L1 as [|s L1 IH]; intros L v N.
+    - exfalso. apply N. left. exists L. reflexivity.
+    - destruct L as [|s' L]; [exfalso; apply N; right; exists (s :: L1); reflexivity|].
+      destruct s as [k|n|], v; cbn [set_at]; try reflexivity; destruct s' as [k'|n'|]; cbn [RedactSpec.sub]; try reflexivity.
+      + rewrite lookup_set_key. destruct (bytes_eqb k k') eqn:E; [|reflexivity].
+        apply bytes_eqb_eq in E. subst k'. destruct (lookup k kvs) as [c|]; [|reflexivity]. cbn [option_map].
+        apply IH. intro C. apply N. apply comparable_cons. exact C.
+      + rewrite set_nth_nth. destruct (Nat.eqb n n') eqn:E; [|reflexivity].
+        apply Nat.eqb_eq in E. subst n'. destruct (nth_error l n) as [c|]; [|reflexivity]. cbn [option_map].
+        apply IH. intro C. apply N. apply comparable_cons. exact C.
+  Qed.
+
+  Lemma sub_prefix v A B : sub v (A ++ B) <> None -> sub v A <> None.
+  Proof. rewrite sub_app. destruct (sub v A); congruence. Qed.
+
+  (* a strict prefix of the written location still exists after the write *)
+  Lemma sub_set_at_above x : forall A s R v, sub v A <> None -> sub (set_at x (A ++ s :: R) v) A <> None.
+  Proof.
+    induction A as [|a A IH]; intros s R v Hs; [discriminate|].
+    cbn [app]. cbn [RedactSpec.sub] in Hs. destruct a as [k|n|], v; cbn [set_at]; try exact Hs; cbn [RedactSpec.sub].
+    - rewrite lookup_set_key, bytes_eqb_refl. destruct (lookup k kvs) as [c|]; [|congruence]. cbn [option_map]. apply IH, Hs.
+    - rewrite set_nth_nth, Nat.eqb_refl. destruct (nth_error l n) as [c|]; [|congruence]. cbn [option_map]. apply IH, Hs.
+  Qed.
+
+  Definition is_container (v : jv) : bool := match v with JArr _ | JObj _ => true | _ => false end.
+
+  Lemma set_at_container x s L v : is_container (set_at x (s :: L) v) = is_container v.
+  Proof. destruct s, v; reflexivity. Qed.
+End PartB.
+
+Section HopStep.
+  Variable parse : bytes -> option jv.
+  Variable b64d : bytes -> option bytes.
+  Notation sub := (sub parse b64d).
+  Notation decode := (decode parse b64d).
+
+  Definition clauses (D : loc -> Prop) (r r' : jv) : Prop :=
+    marker_at_denoted parse b64d D r' /\ frame parse b64d D r r'
+    /\ leaves_from_original parse b64d r r' /\ no_location_added parse b64d r r'.
+
+  Lemma clauses_ext (D D' : loc -> Prop) r r' : (forall L, D L <-> D' L) -> clauses D r r' -> clauses D' r r'.
+  Proof.
+    intros E (C1 & C2 & C3 & C4). repeat split; try assumption.
+    - intros L HL. destruct (C1 L (proj2 (E L) HL)) as (L0 & Lr & E0 & H0 & HM). exists L0, Lr. repeat split; [exact E0 | apply E, H0 | exact HM].
+    - intros L x S Hd. apply C2; [exact S|]. intros d Hin. apply Hd, E, Hin.
+  Qed.
+
+  Lemma sub_set_at_above_eq x : forall A s R v, hopfree A ->
+    sub (set_at x (A ++ s :: R) v) A = option_map (set_at x (s :: R)) (sub v A).
+  Proof.
+    induction A as [|a A IH]; intros s R v Hf; [reflexivity|].
+    pose proof (Forall_inv Hf) as H0. pose proof (Forall_inv_tail Hf) as Hf'. cbn beta in H0.
+    cbn [app]. destruct a as [k|n|]; [| |congruence]; destruct v; cbn [set_at RedactSpec.sub option_map]; try reflexivity.
+    - rewrite lookup_set_key, bytes_eqb_refl. destruct (lookup k kvs) as [c|]; [|reflexivity]. cbn [option_map]. apply IH, Hf'.
+    - rewrite set_nth_nth, Nat.eqb_refl. destruct (nth_error l n) as [c|]; [|reflexivity]. cbn [option_map]. apply IH, Hf'.
+  Qed.
+
+  Lemma sub_step_container c s R : sub c (s :: R) <> None -> s <> SHop -> is_container c = true.
+  Proof. destruct s, c; cbn [RedactSpec.sub is_container]; congruence. Qed.
+
+  Lemma comparable_app A B C : comparable B C -> comparable (A ++ B) (A ++ C).
+  Proof. intros [[R ->]|[R ->]]; [left|right]; exists R; rewrite app_assoc; reflexivity. Qed.
+
+  Lemma hop_clauses r L1 s inner inner' s' (D2 : loc -> Prop) :
+    hopfree L1 -> sub r L1 = Some (JStr s) -> decode s = Some inner -> decode s' = Some inner' ->
+    (exists L2, D2 L2) -> clauses D2 inner inner' ->
+    clauses (fun L => exists L2, L = L1 ++ SHop :: L2 /\ D2 L2) r (set_at (JStr s') L1 r).
+  Proof.
+    intros Hf S1 Dec Dec' [Lw Hw] (C1 & C2 & C3 & C4).
+    set (r' := set_at (JStr s') L1 r).
+    assert (F1 : sub r' L1 = Some (JStr s')) by (apply sub_set_at_same; [exact Hf | congruence]).
+    assert (F2 : forall B, sub r' (L1 ++ SHop :: B) = sub inner' B).
+    { intro B. rewrite sub_app, F1. cbn [RedactSpec.sub]. rewrite Dec'. reflexivity. }
+    assert (F3 : forall B, sub r (L1 ++ SHop :: B) = sub inner B).
+    { intro B. rewrite sub_app, S1. cbn [RedactSpec.sub]. rewrite Dec. reflexivity. }
+    assert (Fo : forall s0 R, s0 <> SHop -> sub r (L1 ++ s0 :: R) = None).
+    { intros s0 R Hs. rewrite sub_app, S1. destruct s0; cbn [RedactSpec.sub]; congruence. }
+    assert (Fo' : forall s0 R, s0 <> SHop -> sub r' (L1 ++ s0 :: R) = None).
+    { intros s0 R Hs. rewrite sub_app, F1. destruct s0; cbn [RedactSpec.sub]; congruence. }
+    repeat split.
+    - intros L (L2 & -> & H2). destruct (C1 L2 H2) as (L0 & Lr & -> & H0 & HM).
+      exists (L1 ++ SHop :: L0), Lr. repeat split.
+      + rewrite <- app_assoc. reflexivity.
+      + exists L0. auto.
+      + rewrite F2. exact HM.
+    - intros L x S Hd. destruct (loc_cases L1 L) as [(R & ->)|[(s0 & R & E)|N]].
+      + destruct R as [|s0 R].
+        * exfalso. apply (Hd (L1 ++ SHop :: Lw)); [exists Lw; auto|]. right. exists (SHop :: Lw). rewrite app_nil_r. reflexivity.
+        * destruct (step_eqb s0 SHop) eqn:E0.
+          -- apply step_eqb_eq in E0. subst s0. rewrite F2. rewrite F3 in S. apply C2; [exact S|].
+             intros d Hdd C. apply (Hd (L1 ++ SHop :: d)); [exists d; auto|].
+             apply comparable_app. apply comparable_cons. exact C.
+          -- rewrite Fo in S; [discriminate|]. intro E1. subst s0. discriminate.
+      + exfalso. apply (Hd (L1 ++ SHop :: Lw)); [exists Lw; auto|]. right. exists (s0 :: R ++ SHop :: Lw).
+        rewrite E, <- app_assoc. reflexivity.
+      + unfold r'. rewrite sub_set_at_other by exact N. exact S.
+    - intros L x S U. destruct (loc_cases L1 L) as [(R & ->)|[(s0 & R & E)|N]].
+      + destruct R as [|s0 R].
+        * rewrite app_nil_r, F1 in S. injection S as <-. destruct U as [_ U]. rewrite (U s' eq_refl) in Dec'. discriminate.
+        * destruct (step_eqb s0 SHop) eqn:E0.
+          -- apply step_eqb_eq in E0. subst s0. rewrite F2 in S. destruct (C3 R x S U) as [->|S']; [left; reflexivity|].
+             right. rewrite F3. exact S'.
+          -- rewrite Fo' in S; [discriminate|]. intro E1. subst s0. discriminate.
+      + exfalso. unfold r' in S.
+        assert (HfL : hopfree L /\ s0 <> SHop).
+        { rewrite E in Hf. apply Forall_app in Hf. destruct Hf as [HfL Hf]. split; [exact HfL | exact (Forall_inv Hf)]. }
+        destruct HfL as [HfL Hs0]. rewrite E, sub_set_at_above_eq in S by exact HfL.
+        assert (Sc : sub r (L ++ s0 :: R) <> None) by (rewrite <- E; congruence).
+        rewrite sub_app in Sc. destruct (sub r L) as [c|]; [|discriminate].
+        assert (Ex : x = set_at (JStr s') (s0 :: R) c) by (cbn [option_map] in S; congruence).
+        destruct U as [U _]. pose proof (sub_step_container c s0 R Sc Hs0) as Hc.
+        pose proof (set_at_container (JStr s') s0 R c) as Hk. rewrite <- Ex, Hc in Hk.
+        destruct x; cbn [is_container] in Hk; try discriminate; exact U.
+      + right. unfold r' in S. rewrite sub_set_at_other in S by exact N. exact S.
+    - intros L S. destruct (loc_cases L1 L) as [(R & ->)|[(s0 & R & E)|N]].
+      + destruct R as [|s0 R]; [rewrite app_nil_r; congruence|].
+        destruct (step_eqb s0 SHop) eqn:E0.
+        * apply step_eqb_eq in E0. subst s0. rewrite F2 in S. rewrite F3. apply C4, S.
+        * rewrite Fo' in S; [congruence|]. intro E1. subst s0. discriminate.
+      + apply (sub_prefix parse b64d r L (s0 :: R)). rewrite <- E. congruence.
+      + unfold r' in S. rewrite sub_set_at_other in S by exact N. exact S.
+  Qed.
+End HopStep.
+
+(* ------------------------------------------------------------------ paths the model covers *)
+Lemma step_loc_single f v l0 c0 : f <> Desc -> In (l0, c0) (step_matches f v) -> exists s, l0 = [s].
+Proof.
+  intros Hf H. destruct f as [k|i| |]; [| | |congruence]; cbn [step_matches] in H.
+  - destruct v; try contradiction. destruct (lookup k kvs); [|contradiction]. destruct H as [E|[]]. injection E as <- _. eauto.
+  - destruct v; try contradiction. destruct (norm_index i (length l)); [|contradiction].
+    destruct (nth_error l n); [|contradiction]. destruct H as [E|[]]. injection E as <- _. eauto.
+  - apply in_map_iff in H. destruct H as (m & E & _). injection E as <- _. eauto.
+Qed.
+
+Lemma path_ok_locs : forall fs v L c, path_ok fs = true -> In (L, c) (jmatches fs v) -> L <> [].
+Proof.
+  induction fs as [|f rest IH]; intros v L c Hok H; [discriminate|].
+  apply in_jmatches_cons in H. destruct H as (l0 & c0 & L' & H0 & H1 & ->).
+  destruct rest as [|g rest'].
+  - assert (Hf : f <> Desc) by (intro E; subst f; discriminate).
+    destruct (step_loc_single f v l0 c0 Hf H0) as [s ->]. discriminate.
+  - assert (HL' : L' <> []) by (eapply IH; [exact Hok | exact H1]).
+    intro E. apply app_eq_nil in E. destruct E as [_ E]. exact (HL' E).
+Qed.
+
+Lemma fold_set_container x : forall (ms : list (loc * jv)) v, (forall m, In m ms -> fst m <> []) ->
+  is_container (fold_left (fun acc m => set_at x (fst m) acc) ms v) = is_container v.
+Proof.
+  induction ms as [|m ms IH]; intros v H; [reflexivity|]. cbn [fold_left].
+  rewrite IH by (intros m0 H0; apply H; right; exact H0).
+  destruct (fst m) as [|s L] eqn:E; [exfalso; exact (H m (or_introl eq_refl) E)|]. apply set_at_container.
+Qed.
+
+Lemma setm_container x fs v : path_ok fs = true -> is_container (setm x fs v) = is_container v.
+Proof.
+  intro Hok. unfold setm. apply fold_set_container. intros [L c] Hin. cbn [fst]. eapply path_ok_locs; eassumption.
+Qed.
+
+Section PartBMain.
+  Variable parse : bytes -> option jv.
+  Variable render : jv -> bytes.
+  Variable b64d : bytes -> option bytes.
+  Variable b64e : bytes -> bytes.
+  Variable xml_redact : bytes -> bytes -> option bytes.
+  (* contracts of the nested-document libraries *)
+  Hypothesis Hmark : decode parse b64d REDACTED = None.
+  Hypothesis Hparse_render : forall v, parse (render v) = Some v.
+  Hypothesis Hb64 : forall t, b64d (b64e t) = Some t.
+  Hypothesis Hnot64 : forall v, is_container v = true -> b64d (render v) = None.
+  Hypothesis Hparse_wf : forall t v, parse t = Some v -> wf v.
+
+  Notation sub := (sub parse b64d).
+  Notation decode := (decode parse b64d).
+  Notation rrec := (redact_rec parse render b64d b64e xml_redact).
+  Notation DArg := (DenotesArg parse b64d).
+
+  Definition ok_arg (a : list seg) : Prop := Forall (fun p => sxml p = None /\ path_ok (sjp p) = true) a.
+
+  Lemma matches_container fs v : wf v -> path_ok fs = true -> jmatches fs v <> [] -> is_container v = true.
+  Proof.
+    intros Hw Hok Hne. destruct (jmatches fs v) as [|[L c] ms] eqn:J; [congruence|].
+    assert (Hin : In (L, c) (jmatches fs v)) by (rewrite J; left; reflexivity).
+    destruct (jm_sub parse b64d fs v L c Hw Hin) as (S & _ & F).
+    pose proof (path_ok_locs fs v L c Hok Hin) as HL. destruct L as [|s L]; [congruence|].
+    apply (sub_step_container parse b64d v s L); [congruence | exact (Forall_inv F)].
+  Qed.
+
+  Theorem rrec_spec : forall a r, a <> [] -> ok_arg a -> wf r -> SingleHops parse b64d (map sjp a) r ->
+    match rrec r a with
+    | Some r' => (exists L, DArg (map sjp a) r L) /\ is_container r = true /\ is_container r' = true
+                 /\ clauses parse b64d (DArg (map sjp a) r) r r'
+    | None => forall L, ~ DArg (map sjp a) r L
+    end.
+  Proof.
+    induction a as [|p a IH]; intros r Hne Hok Hw Hs; [congruence|]. clear Hne.
+    pose proof (Forall_inv Hok) as [Hx Hp]. pose proof (Forall_inv_tail Hok) as Hok'.
+    cbn [redact_rec map]. rewrite Hp, Hx. cbn [negb].
+    destruct (jmatches (sjp p) r) as [|[L1 r0] ms] eqn:J.
+    { (* no match *)
+      intros L HD. inversion HD as [p0 v0 L0 HDn|p0 q0 rest0 v0 L10 t0 inner0 L20 HDn]; subst;
+        destruct (jm_complete _ _ _ HDn) as [c Hc]; rewrite J in Hc; exact Hc. }
+    assert (Hin1 : In (L1, r0) (jmatches (sjp p) r)) by (rewrite J; left; reflexivity).
+    pose proof (jm_sound _ _ _ _ Hin1) as HD1.
+    destruct (jm_sub parse b64d _ _ _ _ Hw Hin1) as (S1 & W0 & F1).
+    assert (Hcont : is_container r = true) by (apply (matches_container (sjp p) r Hw Hp); rewrite J; discriminate).
+    destruct a as [|q rest].
+    - (* last piece: the marker goes to every match *)
+      cbn [map]. refine (conj _ (conj _ (conj _ _))).
+      + exists L1. constructor. exact HD1.
+      + exact Hcont.
+      + rewrite setm_container by exact Hp. exact Hcont.
+      + apply (clauses_ext parse b64d (Denotes (sjp p) r)).
+        * intro L. split; [intro H; constructor; exact H | intro H; inversion H; subst; assumption].
+        * unfold clauses. apply setm_clauses; assumption.
+    - (* a json() hop *)
+      cbn [map] in Hs |- *. inversion Hs as [|p0 q0 rest0 v0 Huniq Hinner]; subst.
+      assert (Hinv : forall L, DArg (sjp p :: sjp q :: map sjp rest) r L ->
+                     exists t inner L2, r0 = JStr t /\ decode t = Some inner /\ L = L1 ++ SHop :: L2
+                                        /\ DArg (sjp q :: map sjp rest) inner L2).
+      { intros L HD. inversion HD as [|p0 q0 rest0 v0 L10 t0 inner0 L20 HDn Hsub Hdec HDi]; subst.
+        rewrite (Huniq _ _ HDn HD1) in *. rewrite S1 in Hsub. injection Hsub as ->. exists t0, inner0, L20. auto. }
+      destruct r0 as [| | |s| |]; try (intros L HD; destruct (Hinv L HD) as (t & inner & L2 & E & _); discriminate).
+      assert (Edec : decode s = parse (match b64d s with Some t => t | None => s end)) by reflexivity.
+      destruct (b64d s) as [t0|] eqn:B.
+      + (* base64-wrapped document *)
+        destruct (parse t0) as [inner|] eqn:P.
+        2:{ intros L HD. destruct (Hinv L HD) as (t & inner & L2 & E & Dc & _). injection E as <-. rewrite Edec in Dc. discriminate. }
+        assert (Dec : decode s = Some inner) by exact Edec.
+        specialize (IH inner (ltac:(discriminate)) Hok' (Hparse_wf _ _ P) (Hinner L1 s inner HD1 S1 Dec)).
+        cbn [map] in IH. destruct (rrec inner (q :: rest)) as [inner'|].
+        2:{ intros L HD. destruct (Hinv L HD) as (t & inner2 & L2 & E & Dc & _ & HDi). injection E as <-.
+            rewrite Dec in Dc. injection Dc as <-. exact (IH L2 HDi). }
+        destruct IH as ((Lw & HLw) & Ci & Ci' & Cl).
+        assert (Dec' : decode (b64e (render inner')) = Some inner').
+        { unfold RedactSpec.decode. rewrite Hb64. apply Hparse_render. }
+        assert (Eset : setm (JStr (b64e (render inner'))) (sjp p) r = set_at (JStr (b64e (render inner'))) L1 r).
+        { unfold setm. apply fold_set_same; [|rewrite J; discriminate].
+          intros [L c] Hin. cbn [fst]. apply Huniq; [eapply jm_sound, Hin | exact HD1]. }
+        rewrite Eset. refine (conj _ (conj _ (conj _ _))).
+        * exists (L1 ++ SHop :: Lw). econstructor; eassumption.
+        * exact Hcont.
+        * destruct L1 as [|s1 L1']; [exfalso; exact (path_ok_locs _ _ _ _ Hp Hin1 eq_refl)|]. rewrite set_at_container. exact Hcont.
+        * apply (clauses_ext parse b64d (fun L => exists L2, L = L1 ++ SHop :: L2 /\ DArg (sjp q :: map sjp rest) inner L2)).
+          -- intro L. split.
+             ++ intros (L2 & -> & H2). econstructor; eassumption.
+             ++ intro HD. destruct (Hinv L HD) as (t & inner2 & L2 & E & Dc & -> & HDi). injection E as <-.
+                rewrite Dec in Dc. injection Dc as <-. exists L2. auto.
+          -- eapply hop_clauses; try eassumption. exists Lw. exact HLw.
+      + (* plain document *)
+        destruct (parse s) as [inner|] eqn:P.
+        2:{ intros L HD. destruct (Hinv L HD) as (t & inner & L2 & E & Dc & _). injection E as <-. rewrite Edec in Dc. discriminate. }
+        assert (Dec : decode s = Some inner) by exact Edec.
+        specialize (IH inner (ltac:(discriminate)) Hok' (Hparse_wf _ _ P) (Hinner L1 s inner HD1 S1 Dec)).
+        cbn [map] in IH. destruct (rrec inner (q :: rest)) as [inner'|].
+        2:{ intros L HD. destruct (Hinv L HD) as (t & inner2 & L2 & E & Dc & _ & HDi). injection E as <-.
+            rewrite Dec in Dc. injection Dc as <-. exact (IH L2 HDi). }
+        destruct IH as ((Lw & HLw) & Ci & Ci' & Cl).
+        assert (Dec' : decode (render inner') = Some inner').
+        { unfold RedactSpec.decode. rewrite (Hnot64 inner' Ci'). apply Hparse_render. }
+        assert (Eset : setm (JStr (render inner')) (sjp p) r = set_at (JStr (render inner')) L1 r).
+        { unfold setm. apply fold_set_same; [|rewrite J; discriminate].
+          intros [L c] Hin. cbn [fst]. apply Huniq; [eapply jm_sound, Hin | exact HD1]. }
+        rewrite Eset. refine (conj _ (conj _ (conj _ _))).
+        * exists (L1 ++ SHop :: Lw). econstructor; eassumption.
+        * exact Hcont.
+        * destruct L1 as [|s1 L1']; [exfalso; exact (path_ok_locs _ _ _ _ Hp Hin1 eq_refl)|]. rewrite set_at_container. exact Hcont.
+        * apply (clauses_ext parse b64d (fun L => exists L2, L = L1 ++ SHop :: L2 /\ DArg (sjp q :: map sjp rest) inner L2)).
+          -- intro L. split.
+             ++ intros (L2 & -> & H2). econstructor; eassumption.
+             ++ intro HD. destruct (Hinv L HD) as (t & inner2 & L2 & E & Dc & -> & HDi). injection E as <-.
+                rewrite Dec in Dc. injection Dc as <-. exists L2. auto.
+          -- eapply hop_clauses; try eassumption. exists Lw. exact HLw.
+  Qed.
+End PartBMain.
